@@ -858,6 +858,7 @@ func (w *world) run() {
 			}
 			var items []item
 			verifrt.ResetMeter(workCap * uint64(len(ev.Burst)))
+			verifrt.SetPreempt(uint64(ev.Preempt))
 			logStart := len(w.rd.Log)
 			for j := range ev.Burst {
 				r := &ev.Burst[j]
@@ -872,6 +873,10 @@ func (w *world) run() {
 				items = append(items, item{cc, s})
 			}
 			synctest.Wait()
+			verifrt.SetPreempt(0)
+			if ev.Preempt > 0 {
+				verifh.Count("fault.forced-handler-interleaving", 1)
+			}
 			for _, it := range items {
 				w.await(it.cc)
 				if w.viol != nil {
